@@ -391,7 +391,7 @@ def topological_sort(nodes):
 
     def find_first_dep(dependency, start_index):
         for i, n in enumerate(islice(nodes, start_index, None), start_index):
-            if n.name == dependency:
+            if n.name == dependency and not isinstance(n, Include):
                 return i
 
     def model_sort_rotate():
@@ -402,10 +402,12 @@ def topological_sort(nodes):
                 if found_index:
                     nodes.insert(index, nodes.pop(found_index))
                 return True
-        known.add(node.name)
+        if not isinstance(node, Include):
+            known.add(node.name)
 
     known = set(x + y for x in "uir" for y in ["8", "16", "32", "64"])
-    available = set(node.name for node in nodes)
+    # an include is called after its file, not after anything it defines: its name is no definition to wait for
+    available = set(node.name for node in nodes if not isinstance(node, Include))
     for index in range(len(nodes)):
         rotations = 0
         while model_sort_rotate():
